@@ -122,7 +122,7 @@ func init() {
 		ev["priv"], ev["x"], ev["y"], ev["err"] = B(priv), B(x), B(y), errStr(err)
 		// the property speaks of "no public key": the (possibly partly filled) private buffer that
 		// comes back with an error is recorded but not judged
-		ev["nil_out"] = x == nil && y == nil
+		ev["nil_out"] = len(x) == 0 && len(y) == 0 // "no public key": nothing handed back (nil or empty)
 		ev["priv_nil"] = priv == nil
 	})
 	register("sm2.sign", func(ctx *Ctx, c Cmd, ev Ev) {
@@ -167,7 +167,7 @@ func init() {
 			panic("harness: bad kind")
 		}
 		ev["r"], ev["s"], ev["err"] = B(r), B(s), errStr(err)
-		ev["nil_out"] = r == nil && s == nil
+		ev["nil_out"] = len(r) == 0 && len(s) == 0 // "no signature": nothing handed back (nil or empty)
 	})
 	// sm2.signverify: derive the public key, sign, then verify the returned signature with
 	// the matching entry point (C01).  One event carries all three results.
